@@ -10,18 +10,20 @@ VARIABLES l, bad, layout
 tvars == <<vars, l, bad, layout>>
 Ev == TraceLog[l]
 Note(why, exp) == Append(bad, [l |-> l, id |-> Ev.id, why |-> why, expect |-> exp])
-ExpStrides(s) == IF layout = "F" THEN ColStrides(s) ELSE Strides(s)
+ExpStrides(s, lay) == IF lay = "F" THEN ColStrides(s) ELSE Strides(s)
 \* what the projection of one object must be
-ObjOk(p, o) == IF ~o.live THEN p.live = FALSE
+ObjOk(p, o, lay) == IF ~o.live THEN p.live = FALSE
                ELSE /\ p.live /\ p.shape = o.shape /\ p.dim = Len(o.shape) /\ p.size = Prod(o.shape)
                     /\ p.elems = o.elems /\ p.perm = TRUE
+                    \* strides() always reports row-major strides of the current shape; the layout functor holds the strides used for addressing
+                    /\ p.strides = Strides(o.shape) /\ p.ostrides = ExpStrides(o.shape, lay)
 Expected == [obj |-> [shape |-> obj'.shape, elems |-> obj'.elems], cpy |-> [live |-> cpy'.live, shape |-> cpy'.shape, elems |-> cpy'.elems], ret |-> ret']
 
 TInit == Init /\ l = 1 /\ bad = <<>> /\ layout = "C"
 TBegin == /\ l <= Len(TraceLog) /\ Ev.e = "begin"
           /\ obj' = [live |-> TRUE, shape |-> KindDesc.init, elems |-> Fresh(KindDesc.init, 0)] /\ cpy' = Dead /\ hist' = <<>> /\ ret' = TRUE
           /\ layout' = Ev.layout
-          /\ bad' = IF Ev.ret = TRUE /\ ObjOk(Ev.proj.obj, obj') /\ ObjOk(Ev.proj.cpy, cpy') THEN bad ELSE Note("initial resize/fill", Expected)
+          /\ bad' = IF Ev.ret = TRUE /\ ObjOk(Ev.proj.obj, obj', Ev.layout) /\ ObjOk(Ev.proj.cpy, cpy', Ev.layout) THEN bad ELSE Note("initial resize/fill", Expected)
           /\ l' = l + 1
 Act(a) == CASE a.op = "resize" -> Resize(a.shape)
             [] a.op = "write" -> Write(a.k)
@@ -33,7 +35,7 @@ Act(a) == CASE a.op = "resize" -> Resize(a.shape)
 TStep == /\ l <= Len(TraceLog) /\ Ev.e = "step"
          /\ IF ENABLED Act(Ev.act)
             THEN /\ Act(Ev.act)
-                 /\ bad' = IF Ev.ret = ret' /\ ObjOk(Ev.proj.obj, obj') /\ ObjOk(Ev.proj.cpy, cpy') THEN bad ELSE Note("state after " \o Ev.act.op, Expected)
+                 /\ bad' = IF Ev.ret = ret' /\ ObjOk(Ev.proj.obj, obj', layout) /\ ObjOk(Ev.proj.cpy, cpy', layout) THEN bad ELSE Note("state after " \o Ev.act.op, Expected)
             ELSE /\ UNCHANGED vars /\ bad' = Note("action not enabled in the specification", [none |-> TRUE])
          /\ UNCHANGED layout /\ l' = l + 1
 TCrash == /\ l <= Len(TraceLog) /\ Ev.e = "crash"
